@@ -117,6 +117,9 @@ struct Transport::Impl
   {
     std::condition_variable cv;
     bool done{false};
+    bool abandoned{false}; // the connectSync caller gave up (timeout/teardown) without
+                           // a result; the entry stays only to suppress the global
+                           // callbacks until the session's onClose erases it
     ConnectResult result{ConnectResult::err(TransportErrorInfo{TransportError::Timeout, "pending"})};
   };
   std::mutex syncMutex;
@@ -317,6 +320,14 @@ struct Transport::Impl
           auto it = pendingConnects.find(sid);
           if (it != pendingConnects.end())
           {
+            if (it->second->abandoned)
+            {
+              // The caller already returned Timeout/ShuttingDown for this sid and
+              // never received it. Keep the entry so the onClose that follows
+              // (from the caller's close(sid) or engine shutdown) is still
+              // suppressed, and do not fire the global onConnect either.
+              return;
+            }
             op = it->second;
             op->result = ConnectResult::ok(sid);
             op->done = true;
@@ -828,6 +839,14 @@ inline ConnectResult Transport::connectSync(const std::string &host, std::uint16
   {
     return std::move(op->result);
   }
+
+  // From here on every path returns an error without handing `sid` to the
+  // caller, while pendingConnects[sid] is deliberately kept (see below). Mark
+  // the record abandoned (under syncMutex) so a late onConnect cannot erase it:
+  // without this, a connect completing after the timeout would consume the
+  // entry and the subsequent onClose would reach the GLOBAL close callback and
+  // observers for an id the application never saw.
+  op->abandoned = true;
 
   if (_impl->shuttingDown)
   {
